@@ -978,17 +978,24 @@ pub fn inputs_c15(r: &mut Rng, n: usize, tier: &str, out: &mut dyn Write) {
         .max(0);
         writeln!(out, "series_dyn {} {}:{} {} {} {} {}", r.below(2), dstr(start), a, dstr(span), b, dstr(step), cap + 5).unwrap();
     }
-    for _ in 0..(n / 100).max(4) {
-        // the Iterator protocol on a short series: after k forward steps, each method std derives from next()
+    for _ in 0..(n / 50).max(4) {
+        // the Iterator protocol on a short series: after k forward steps (often none: a FRESH series), each method std
+        // derives from next() -- or that the type overrides; the index argument of nth / skip / step_by is aimed at the
+        // last items of what is left (seeded change C15-7: an O(1) `nth` bounded by `len()`, which is one short for
+        // exclusive spans that are not multiples of the step and for inclusive spans that are)
         let a = *r.pick(&NONDYN);
         let b = if r.chance(2, 3) { a } else { *r.pick(&NONDYN) };
         let step = match r.below(4) { 0 => 1, 1 => SEC, 2 => DAY, _ => r.below(DAY as u64) as i128 + 1 };
         let count = r.below(40) as i128;
         let span = count * step + if r.chance(1, 2) { 0 } else { r.below(step as u64) as i128 };
         let start = (r.range_i64(-100_000, 100_000) as i128) * DAY + r.below(DAY as u64) as i128;
-        let k = r.below(count as u64 + 3);
-        let m = *r.pick(&["last", "count", "nth", "min", "max", "rest", "step_by", "skip_take"]);
-        writeln!(out, "tsiter {} {}:{} {} {} {} {} {} {}", r.below(2), dstr(start), a, dstr(span), b, dstr(step), k, m, r.below(8)).unwrap();
+        let incl = r.below(2);
+        let total = if incl == 1 || span != count * step { count + 1 } else { count };
+        let k = if r.chance(1, 2) { 0 } else { r.below(count as u64 + 3) as i128 };
+        let left = (total - k).max(0);
+        let j = match r.below(5) { 0 => left - 1, 1 => left - 2, 2 => left, 3 => left / 2, _ => r.below(8) as i128 }.max(0);
+        let m = *r.pick(&["last", "count", "nth", "nth", "min", "max", "rest", "step_by", "skip_take", "skip_take"]);
+        writeln!(out, "tsiter {} {}:{} {} {} {} {} {} {}", incl, dstr(start), a, dstr(span), b, dstr(step), k, m, j).unwrap();
     }
     for _ in 0..(n / 150).max(4) {
         // symmetry class: the series straddles the zero of the start's own count and some item start + k x step is the
